@@ -69,7 +69,7 @@ Section Term.
         destruct args as [|tok [|? ?]]; injection Ei as <-; discriminate.
       - unfold instr_step in B.
         destruct (skipn (count_while is_space l0) l0) as [|ch r0].
-        + destruct rest; try discriminate. eapply skip_cursor_pos; eassumption.
+        + eapply skip_cursor_pos; eassumption.
         + destruct (ch =? c_btick).
           * destruct (find_char c_btick r0).
             -- eapply skip_cursor_pos; eassumption.
